@@ -5,7 +5,8 @@ from . import civil as C
 THEOREMS = {
     'C04': [],
     'C05': [],
-    'C17': [],
+    'C17': ['Cctz.C17.getWeekday_spec', 'Cctz.C17.getYearday_spec', 'Cctz.C17.nextWeekday_spec',
+            'Cctz.C17.prevWeekday_spec', 'Cctz.C17.weekday_spec_sanity'],
 }
 
 PANEL = [(0, 0, 0, 0, 0), (0, 0, 24, 0, 0), (0, 0, -1, 0, 0), (0, 0, 0, 60, 0), (0, 0, 0, -1, 0), (0, 0, 0, 0, 60),
